@@ -10,12 +10,16 @@ import (
 	_ "perun.network/go-perun/backend/sim"
 	_ "perun.network/go-perun/client"
 	"verif/harness/internal/c15"
+	"verif/harness/internal/mach"
 	"verif/harness/internal/tables"
 )
 
 var drivers = map[string]func(seed int64, tier, out string){
 	"C15": c15.Run,
 	"gen": tables.Run,
+	"C01": mach.Run("C01"),
+	"C02": mach.Run("C02"),
+	"C09": mach.Run("C09"),
 }
 
 func main() {
